@@ -29,6 +29,7 @@ DUMP = "DUMP\n -all\nEND\n"
 REACTANTS = {"NaCl": {"Na": 1, "Cl": 1}, "HCl": {"H": 1, "Cl": 1}, "NaOH": {"Na": 1, "O": 1, "H": 1}, "CaCl2": {"Ca": 1, "Cl": 2}, "KCl": {"K": 1, "Cl": 1}, "MgSO4": {"Mg": 1, "S": 1, "O": 4},
              "Na2SO4": {"Na": 2, "S": 1, "O": 4}, "CO2": {"C": 1, "O": 2}, "NaHCO3": {"Na": 1, "H": 1, "C": 1, "O": 3}, "CaSO4": {"Ca": 1, "S": 1, "O": 4}, "H2O": {"H": 2, "O": 1},
              "KNO3": {"K": 1, "N": 1, "O": 3}, "SrCl2": {"Sr": 1, "Cl": 2}}
+SWAPS = {"Sr": {"Sr": 1}, "Ca": {"Ca": 1}}      # single elements, used with coefficients -1 / +1 (see build)
 KSAV = ["exchange", "surface", "equilibrium_phases", "gas_phase", "solid_solutions"]
 USE_WORD = {"solid_solutions": "solid_solution"}
 
@@ -227,10 +228,16 @@ def build(ctx, case):
         mode = r.choice(["usesave", "usesave", "runcells"]) if not (mixed and k == 0) else "usesave"
         rx = r.sample(sorted(REACTANTS), r.randint(1, 3))
         coefs = [r.choice([1, 1, 0.5, 2]) for _ in rx]
+        swap = "ss" in kinds and r.random() < 0.3
+        if swap:
+            # a reaction that takes strontium out and puts calcium in (or the reverse): more than the water holds, so that the solid solution has to supply it
+            rx, coefs = (["Sr", "Ca"], [-1, 1]) if r.random() < 0.6 else (["Ca", "Sr"], [-1, 1])
         incr = r.random() < 0.4
         style = r.choice(["single", "insteps", "list"]) if mode == "usesave" else r.choice(["single", "single", "insteps", "list"])      # RUN_CELLS walks through the steps too and saves the last one
+        if swap:
+            style = "single"
         if style == "single":
-            amt = gens.loguni(r, 1e-5, 5e-3)
+            amt = gens.loguni(r, 1e-5, 5e-3) if not swap else gens.loguni(r, 2e-5, 8e-5)
             stp, total = "%s mol" % f(amt), float(f(amt))
         elif style == "insteps":
             amt = gens.loguni(r, 1e-5, 5e-3)
@@ -241,7 +248,7 @@ def build(ctx, case):
             total = sum(vals) if incr else vals[-1]
         added = {}
         for name, c in zip(rx, coefs):
-            for e, n in REACTANTS[name].items():
+            for e, n in (REACTANTS.get(name) or SWAPS[name]).items():
                 add(added, e, n * c * total)
         rtxt = "REACTION %d\n" % cur + "".join(" %s %s\n" % (n, f(c)) for n, c in zip(rx, coefs)) + " " + stp + "\n"
         txt = "INCREMENTAL_REACTIONS %s\n" % ("true" if incr else "false")
